@@ -443,6 +443,7 @@ class StmtMixin:
         trace_mark = len(st.trace)
         results = []
         alts = []
+        alt_items = []
         # --- one arbitrary iteration
         if kind == 'while':
             conds = self.eval(s.test, st.fork())
@@ -459,8 +460,10 @@ class StmtMixin:
                     continue
                 v0 = spec.variant(ctx.at(s1)) if spec.variant is not None else None
                 body_in = [(NORMAL, s1)]
+                cur_item = None
                 if kind == 'for':
-                    body_in = self.assign(s.target, ctx.current_item(s1), s1)
+                    cur_item = ctx.current_item(s1)
+                    body_in = self.assign(s.target, cur_item, s1)
                 for o0, s2 in body_in:
                     if o0[0] != 'normal':
                         results.append((o0, s2))
@@ -475,14 +478,15 @@ class StmtMixin:
                                 self.oblige(s3, f'{lid}.variant_decreases', z3.And(v1 < v0, v0 > 0),
                                             kind='loop-variant', line=line)
                             alts.append(list(s3.trace[trace_mark:]))
+                            alt_items.append(ctx.current_item(s1) if kind == 'for' and False else cur_item)
                         elif bo[0] == 'break':
-                            s3.trace[trace_mark:trace_mark] = [LoopSummary(lid, alts, line, s3.held)]
+                            s3.trace[trace_mark:trace_mark] = [LoopSummary(lid, alts, line, s3.held, alt_items, iterable)]
                             results.append((NORMAL, s3))
                         else:
-                            s3.trace[trace_mark:trace_mark] = [LoopSummary(lid, alts, line, s3.held)]
+                            s3.trace[trace_mark:trace_mark] = [LoopSummary(lid, alts, line, s3.held, alt_items, iterable)]
                             results.append((bo, s3))
         for s1 in exit_states:
-            s1.trace[trace_mark:trace_mark] = [LoopSummary(lid, alts, line, s1.held)]
+            s1.trace[trace_mark:trace_mark] = [LoopSummary(lid, alts, line, s1.held, alt_items, iterable)]
             if kind == 'for':
                 ctx.at_exit(s1)
             if s.orelse:
